@@ -10,6 +10,7 @@ func init() {
 		lean:    []string{"JSight.Props.C11", "JSight.Props.C07", "JSight.Props.C13"},
 		exes:    []string{},
 		run:     runC11,
+		assume:  []string{"the registry theorems are name-level (one collection key per declaration); references inside schema bodies are resolved by the schema library (oracle)"},
 		rule:    "generated accepted documents x fault kinds (duplicate type/enum/server/tag/macro, same method on the same path, same URL path, paths differing only in a parameter name, second singleton child, missing required parameter, undefined type/enum/macro/tag) x every position where the fault can be injected; non-trivial = the fault is injected >= 1 directive away from the start; distinct = distinct faulty document",
 		trusted: []string{"the harness-side renderer and the line-level fault injectors"},
 	}
